@@ -10,6 +10,7 @@ import (
 
 	"verif/internal/core"
 	"verif/internal/gen"
+	"verif/internal/wire"
 	"verif/internal/xport"
 )
 
@@ -29,7 +30,7 @@ func init() {
 		Run:          runC05,
 		BeatTimeoutS: 60,
 		Exhaustive:   false,
-		Required:     []string{"faults_injected", "messages_reported_complete", "partial_messages_refused", "streams_read_through_joinmessages", "retries_after_moving_the_read_deadline", "executions_under_a_sufficient_read_limit"},
+		Required:     []string{"faults_injected", "messages_reported_complete", "partial_messages_refused", "streams_read_through_joinmessages", "retries_after_moving_the_read_deadline", "executions_under_a_sufficient_read_limit", "large_single_frame_messages_cut", "failed_connections_polled_up_to_the_documented_limit"},
 		Assumptions: []string{
 			"exhaustive over cut offsets x fault kinds for each generated stream; streams, chunkings and read programs are sampled",
 			"after a read error delivered together with data, a message completed by that data may or may not be reported complete (lower <= j <= upper)",
@@ -39,7 +40,42 @@ func init() {
 
 var faultNames = []string{"eof-after", "eof-with-last-bytes", "error-after", "error-with-last-bytes", "timeout-after", "timeout-with-last-bytes", "unexpected-eof-after", "unexpected-eof-with-last-bytes"}
 
+// c05Large: one unfragmented, uncompressed message of 64 KiB or more (where a reader might
+// size a buffer from the header) cut at a dozen offsets by every fault kind.
+func c05Large(ctx *core.Ctx, out *core.Out) {
+	r := ctx.R
+	fromClient := r.Bool()
+	size := []int{65535, 65536, 65537, 100000, 1 << 20}[r.Intn(5)]
+	data := r.Payload(gen.PCounter, size)
+	f := wire.Frame{Fin: true, Op: 2, Masked: fromClient, Payload: data}
+	if fromClient {
+		f.Key = maskKey(r)
+	}
+	st := &Stream{Frames: []wire.Frame{f}, Events: []Ev{{Kind: 2, Data: data, First: 0, Last: 0}}}
+	st.finish()
+	exp := st.DataEvents()
+	ends := []int{len(st.Bytes)}
+	for i := 0; i < 12; i++ {
+		cut := r.Range(1, len(st.Bytes))
+		if i == 0 {
+			cut = len(st.Bytes) - 1
+		}
+		for kind := 0; kind < len(faultNames); kind++ {
+			ex := rdExec{RB: []int{0, 125, 4096, 65536}[r.Intn(4)], Chunk: xport.ChunkWhole, Mode: r.Intn(2), Server: fromClient}
+			out.EvalH(uint64(size)<<40^uint64(cut)<<8^uint64(kind), true)
+			out.Count("large_single_frame_messages_cut", 1)
+			if !c05Exec(out, st, exp, ends, cut, kind, ex, r) {
+				return
+			}
+		}
+	}
+}
+
 func runC05(ctx *core.Ctx, out *core.Out) {
+	if ctx.Idx%20 == 7 {
+		c05Large(ctx, out)
+		return
+	}
 	r := ctx.R
 	fromClient := r.Bool()
 	comp := r.Chance(1, 3)
@@ -189,6 +225,7 @@ func c05Exec(out *core.Out, st *Stream, exp []Ev, ends []int, cut, kind int, ex 
 	}
 	j := 0
 	var termErr error
+	failedInNextReader := false
 	if ex.Mode == 2 {
 		// the whole stream through JoinMessages: complete messages each followed by the
 		// terminator, possibly the beginning of one more message, then an error that is
@@ -261,6 +298,7 @@ func c05Exec(out *core.Out, st *Stream, exp []Ev, ends []int, cut, kind int, ex 
 			typ, nr, err = c.NextReader()
 			if err != nil {
 				termErr = err
+				failedInNextReader = true
 				break
 			}
 			buf := make([]byte, r.Range(1, 600))
@@ -346,6 +384,21 @@ func c05Exec(out *core.Out, st *Stream, exp []Ev, ends []int, cut, kind int, ex 
 		if e2 != e1 || rdr != nil || t > 0 {
 			return fail("error-not-sticky", fmt.Sprintf("NextReader call %d after the failure returned (%d,%v), earlier call returned %v", i+2, t, e2, e1))
 		}
+	}
+	if cut%64 == 9 && ex.Mode == 1 {
+		// "every later call": up to the documented limit (the 1000th failing NextReader call
+		// panics on purpose). Failing calls so far: the first one if it was NextReader that
+		// failed, plus the six above.
+		n := 6
+		if failedInNextReader {
+			n++
+		}
+		for ; n < 999; n++ {
+			if _, _, e2 := c.NextReader(); e2 != e1 {
+				return fail("error-not-sticky", fmt.Sprintf("failing NextReader call %d returned %v, the first returned %v", n+1, e2, e1))
+			}
+		}
+		out.Count("failed_connections_polled_up_to_the_documented_limit", 1)
 	}
 	return true
 }
